@@ -239,7 +239,11 @@ def parse_trials(text):
         if head.startswith('SCHEDLOG'):
             cur['schedlog'] = [(int(a), int(b)) for a, b in re.findall(r'D (\d+) (\d+);', head)]
             continue
-        recs = parse_records(body)
+        try:
+            recs = parse_records(body)
+        except (ValueError, IndexError, KeyError):
+            cur['corrupt'] = True     # garbage in the driver's own log: memory corruption in the process
+            recs = []
         if head == 'PRE':
             cur['pre'] = recs
         elif head == 'POST':
@@ -423,6 +427,9 @@ def _worker(args):
                 if i not in parsed or not parsed[i]['done']:
                     continue
                 rec = parsed[i]
+                if rec.get('corrupt'):
+                    out['viol'].append(dict(key='crash|corrupted-log', detail='the driver\'s own event log of this trial contains garbage (memory corruption in the process under test)', trial=trial_text(0, t)))
+                    continue
                 out['trials'] += 1
                 nth = len(t.threads)
                 out['threads_hist'][nth] = out['threads_hist'].get(nth, 0) + 1
@@ -631,6 +638,9 @@ def _sys_worker(args):
                     if i not in parsed or not parsed[i]['done']:
                         continue
                     rec = parsed[i]
+                    if rec.get('corrupt'):
+                        out['viol'].append(dict(key='systematic|crash|corrupted-log', detail='the driver\'s own event log contains garbage (memory corruption) with schedule prefix %s' % pre, trial=trial_text(0, t, sched=pre)))
+                        continue
                     dec = rec.get('schedlog', [])
                     done += 1
                     out['schedules'] += 1
